@@ -327,7 +327,10 @@ func (*Ufs) Walk(req *SrvReq) {
 		path = p
 	}
 
-	nfid.path = path
+	/* only a complete walk moves the (new) fid; after a partial one both fids stay where they were */
+	if i == len(tc.Wname) {
+		nfid.path = path
+	}
 	req.RespondRwalk(wqids[0:i])
 }
 
